@@ -43,6 +43,21 @@ pub fn check_record(rec: &Value) -> Verdict {
             return Verdict::fail("nondeterministic:in-process", format!("evaluation #{} differs\n{}\n{}", i + 2, d, record_text(rec)));
         }
     }
+    // history independence: compiling something else in between (a broken copy of the same text, which the parser
+    // or the type checker rejects) must not change what this input compiles to
+    if rec["interleave"].is_object() {
+        if let Err(p) = eval(&rec["interleave"]) {
+            return Verdict::fail(format!("panic:{}", p), record_text(&rec["interleave"]));
+        }
+        let again = match eval(rec) {
+            Ok(s) => s,
+            Err(p) => return Verdict::fail(format!("panic:{}", p), record_text(rec)),
+        };
+        if again != first {
+            let d = first.lines().zip(again.lines()).find(|(a, b)| a != b).map(|(a, b)| format!("before: {}\nafter : {}", a, b)).unwrap_or_default();
+            return Verdict::fail("history-dependent:in-process", format!("the result changed after another input was compiled on the same thread\n{}\n--- the other input\n{}\n--- this input\n{}", d, record_text(&rec["interleave"]), record_text(rec)));
+        }
+    }
     let accepted = first.starts_with("OK");
     let nontrivial = rec["rich"].as_bool().unwrap_or(false);
     Verdict::pass(
@@ -113,7 +128,7 @@ fn make_record(ch: &[u32], t: usize, variant: u8) -> Value {
 }
 
 pub fn run(ctx: &mut Ctx) {
-    ctx.rule = "Inputs: generated programs with >= 4 resources across bind groups (buffer addresses in several groups for the inline blocks, resources declared out of slot order), 2-6 statics used per function, task shaders dispatching two payload types, overload sets / template instances / structs whose names collide with generated `_N` suffixes, include graphs with #pragma once reached by two paths, rejected variants (diagnostics; also every ill-typed program of C03's injection table and 17 shapes with several offending entities of one kind - enumerators out of range, unmatched and ambiguous overload sets, several undefined names, duplicate definitions, failing template instances, pipeline property errors, several structs failing layout validation, missing interpolators - each evaluated 12 times), and overload sets of one name (also reserved words) in the global scope and in sibling / nested namespaces; x 4 targets x {all, named, no-pipeline} x layout validation on/off. Oracle: the full result (sources, stages, metadata, state or diagnostic text) is identical across 4 evaluations in one process (every compile builds fresh HashMaps with fresh seeds) and across 8 freshly spawned processes. Non-trivial = the input has a pipeline and >= 4 resources or a forced name collision. Distinct = hash of the record.".into();
+    ctx.rule = "Inputs: generated programs with >= 4 resources across bind groups (buffer addresses in several groups for the inline blocks, resources declared out of slot order), 2-6 statics used per function, task shaders dispatching two payload types, overload sets / template instances / structs whose names collide with generated `_N` suffixes, include graphs with #pragma once reached by two paths, rejected variants (diagnostics; also every ill-typed program of C03's injection table and 17 shapes with several offending entities of one kind - enumerators out of range, unmatched and ambiguous overload sets, several undefined names, duplicate definitions, failing template instances, pipeline property errors, several structs failing layout validation, missing interpolators - each evaluated 12 times), and overload sets of one name (also reserved words) in the global scope and in sibling / nested namespaces; x 4 targets x {all, named, no-pipeline} x layout validation on/off. Oracle: the full result (sources, stages, metadata, state or diagnostic text) is identical across 4 evaluations in one process, also when a broken copy of the same input (cut short, one character deleted, a bracket changed: mostly parse errors) is compiled in between on the same thread, (every compile builds fresh HashMaps with fresh seeds) and across 8 freshly spawned processes. Non-trivial = the input has a pipeline and >= 4 resources or a forced name collision. Distinct = hash of the record.".into();
     ctx.assumptions.push("no source of non-determinism other than hash seeds exists in the code read (no clock, threads, addresses or environment access)".into());
     if !ctx.replay_tier(&check_record) {
         return;
@@ -205,6 +220,50 @@ pub fn run(ctx: &mut Ctx) {
             other => other,
         });
     }
+    // ---- history independence: A, then a broken copy of A (one character deleted, the text cut short, a bracket
+    // changed - mostly parse errors with nearly the same token layout), then A again on the same thread
+    ctx.run_prop(
+        "history_independence",
+        ctx.tier.pick(1_500, 30_000),
+        || (progen::choices_strategy(400), 0usize..4, any::<u16>(), 0u8..4),
+        |(ch, t, at, how): &(Vec<u32>, usize, u16, u8)| {
+            let mut rec = make_record(ch, *t, 3);
+            let text = rec["files"].as_array().and_then(|f| f.last()).and_then(|f| f[1].as_str()).unwrap_or("").to_string();
+            let mut cut = ((*at as usize) * text.len().max(1)) >> 16;
+            while cut > 0 && !text.is_char_boundary(cut) {
+                cut -= 1;
+            }
+            let broken = match how {
+                0 => text[..cut].to_string(),
+                1 => {
+                    let mut s = text.clone();
+                    if cut < s.len() {
+                        let end = cut + s[cut..].chars().next().map(|c| c.len_utf8()).unwrap_or(0);
+                        s.replace_range(cut..end, "");
+                    }
+                    s
+                }
+                2 => text.replacen('>', ";", 1 + (*at as usize % 3)),
+                _ => format!("{}\n{}", &text[..cut], "int unterminated( {"),
+            };
+            let mut other = rec.clone();
+            if let Some(files) = other["files"].as_array_mut() {
+                if let Some(last) = files.last_mut() {
+                    last[1] = json!(broken);
+                }
+            }
+            rec["interleave"] = other;
+            rec["rich"] = json!(true);
+            rec
+        },
+        |r: &Value| match check_record(r) {
+            Verdict::Pass { nontrivial, mut labels } => {
+                labels.push("history_independence".into());
+                Verdict::Pass { nontrivial, labels }
+            }
+            other => other,
+        },
+    );
     // cross-process: a deterministic sample of inputs evaluated in 8 fresh processes
     let n = ctx.tier.pick(400, 6_000);
     let sample = sample_strategy(&strat(), ctx.seed ^ 0xC07, n);
